@@ -49,6 +49,12 @@ pub struct ServerConnection { _p: () }
 impl<IO> tokio_rustls::server::TlsStream<IO> {
     #[verifier::external_body]
     pub fn get_ref(&self) -> (r: (&IO, &ServerConnection)) ensures *r.0 == self.sock() { unimplemented!() }
+    /// direct access to the transport and the session state: what is done through it bypasses the session's own
+    /// read / write / flush logic (nothing is known about the session afterwards except its plaintext logs)
+    #[verifier::external_body]
+    pub fn get_mut(&mut self) -> (r: (&mut IO, &mut ServerConnection))
+        ensures final(self).plain_out() == old(self).plain_out(), final(self).plain_in() == old(self).plain_in(),
+    { unimplemented!() }
 }
 //@check_struct file=${FILE} name=AcceptorService fields=acceptor,conns,handshake_timeout
 //@extract_type file=${FILE} item="struct AcceptorService"
